@@ -148,4 +148,8 @@ def run(ctx):
                     why = "the span is the one captured together with the failing key" if ok else "the span does not come from the failing key's entry"
                 ctx.ob("R20.3", "span|" + v, ok, why, site="%s in %s" % (s.span, f.id))
     ctx.floor("R20.3", 3)
+    have = {s.rv.j.get("variant") for f in bodies for s in f.stmts() if s.rv.k == "agg" and s.rv.j.get("adt", "") == "wac_resolver::Error"}
+    ctx.ob("R20.3", "no-release-is-an-error", "PackageNoReleases" in have,
+           "an unversioned key whose package has no selectable release is reported (PackageNoReleases)" if "PackageNoReleases" in have else
+           "PackageNoReleases is never constructed in resolve: a `None` from the release selection is dropped silently (the key is missing from the result instead of being an error)")
     c18.check_cli_resolver(c19.ctx_rule(ctx, "R20.6"))
